@@ -207,7 +207,7 @@ func coldStartChildren(r *vf.Run) {
 	defer os.RemoveAll(out)
 	for i := 0; i < n; i++ {
 		cmd := exec.Command(exe, r.ID, r.Tier)
-		cmd.Env = append(os.Environ(), "VERIF_COLDSTART=1", "VERIF_MAPPER_ORDER="+orders[i%4], "VERIF_OUT="+out)
+		cmd.Env = append(os.Environ(), "VERIF_CHILD=1", "VERIF_COLDSTART=1", "VERIF_MAPPER_ORDER="+orders[i%4], "VERIF_OUT="+out)
 		b, err := cmd.CombinedOutput()
 		r.Eval(1)
 		if ee, ok := err.(*exec.ExitError); ok && ee.ExitCode() == 1 {
